@@ -46,7 +46,7 @@ V4 = [b'10.0.3.1', b'192.168.1.254', b'127.0.0.1', b'1.2.3.4']
 V6 = [b'::1', b'2001:db8::1', b'2001:DB8:0:0:0:0:0:1', b'::ffff:10.0.3.1', b'fe80::1:2:3:4', b'2001:db8:0:0:1::1',
       b'0:0:0:0:0:0:0:1']
 PATHS = [b'', b'/', b'/a/b', b'/x?y=1&z=2', b'?q=1', b'/a;b=c', b'/a@b', b'/a:b/c:80', b'//double', b'/?', b'/%2F%40',
-         b'/*', b'/a?b?c', b'/a?u=http://other.example:81/z', b'/~u/', b'/a?x=[::1]', b'/sp%20ace']
+         b'/*', b'/a?b?c', b'/a?u=http://other.example:81/z', b'/~u/', b'/a?x=[::1]', b'/sp%20ace', b'?next=/home', b'?u=http://other.example/a@b']
 USERINFO = [b'', b'', b'', b'user:pw@', b'user@', b'u:p:w@', b':pw@', b'user:@']
 MUT_ALPHABET = [b':', b'/', b'@', b'[', b']', b'?', b'.', b'0', b'a', b'9']
 DAMAGED_ABS = [b'http://', b'http:///x', b'http://up.example:abc/', b'http://up.example:99999/', b'http://up.example:-1/',
